@@ -8,6 +8,13 @@ ROOT = os.path.dirname(os.path.dirname(os.path.abspath(__file__)))
 
 # id -> (category, technique, text, note, design_ref)
 CHECKS = {
+    "C13": (
+        "exploration",
+        "round-trip monitor (rendered attributes parsed back with html.parser vs a reference merge), exactly-once escape-level counter for slot content, parsed-element monitor for the js/css end-tag guard",
+        "120k (quick) / 1.5M (thorough) html_attrs invocations over colliding attribute names and hostile values, passed as positional/keyword dicts, attrs:k= / defaults:k= aggregation, ...spreads, literals and repeated keywords, are rendered into <x-probe ...> and parsed back: the (name, value) multiset must equal the reference merge and nothing may break out of the tag; slot content in 6 forms x escape flag x 3 nesting shapes must come out escaped exactly once (or not at all when safe / flag off); component js/css with end-tag look-alikes in any case must be refused or else parse back intact.",
+        "html.parser is the trusted HTML reader; names limited to valid lower-case attribute names; bool/None never meet another value for the same name.",
+        "DESIGN.md §2 C13",
+    ),
     "C02": (
         "exploration",
         "reference-model + metamorphic monitor: grammar-generated argument ASTs, leaves evaluated by stock Django, containers/spreads by Python; many layouts x two real receivers compiled and rendered through real templates",
